@@ -5,9 +5,9 @@ _RW = {"middleware/cache": ["time"], "middleware": ["time"], "internal/dnsutil":
 
 CHECK = {
     "level": "exploration",
-    "engines": ["space"],
+    "engines": ["space", "authsim"],
     "technique": "bounded-exhaustive product policy x client x subnet option x options x route through the real edns->cache->upstream chain (upstream OPT and client reply judged), plus exhaustive <=3-client histories against scoped authorities",
-    "level_text": "The full product of ECS policies (enabled/disabled, v4 ceilings 0/16/24/32/33, v6 0/64/129, client networks none/10.0.0.0/8/with a malformed entry, floors) x 4 client addresses (incl. v4-mapped) x 49 client subnet options (every v4 netmask 0-33 with host bits set, v6 boundary netmasks, families 0/3, family/address mismatches) x other client options x {message, wire} route x CD x EDNS version is driven through the real edns and cache handlers; the scripted upstream records the OPT it receives. Then every sequence of <=3 clients against authorities declaring scopes is replayed and every served reply judged against a reference scope/TTL/denial model.",
+    "level_text": "Shared: the real chain edns -> cache -> resolver with ECS forwarding on resolves against a scripted universe whose geo.t. authority tailors the answer by the forwarded subnet and declares scope 0/16/24; every order of {client arrives, its upstream exchange goes on the wire, the authority releases a held reply} for every ordered pair and triple of audiences {10.1.2.0/24, 10.1.3.0/24, 10.1.0.0/16, no subnet} is executed (exact settling between events by goroutine snapshots), then every client plus two outsiders ask again from the cache: no reply made for S/len with scope > 0 reaches a client outside S/min(scope,len), cache-served scoped replies carry at most the scoped TTL limit. The full product of ECS policies (enabled/disabled, v4 ceilings 0/16/24/32/33, v6 0/64/129, client networks none/10.0.0.0/8/with a malformed entry, floors) x 4 client addresses (incl. v4-mapped) x 49 client subnet options (every v4 netmask 0-33 with host bits set, v6 boundary netmasks, families 0/3, family/address mismatches) x other client options x {message, wire} route x CD x EDNS version is driven through the real edns and cache handlers; the scripted upstream records the OPT it receives. Then every sequence of <=3 clients against authorities declaring scopes is replayed and every served reply judged against a reference scope/TTL/denial model.",
     "level_note": "Trusted: reference policy reading (ceilings default 24/56, floor defaults to ceiling, any malformed value disables forwarding); the stub stands in for resolver/forwarder as the only upstream sink.",
     "rule": "cases enumerated as a full product; 'nontrivial' = distinct cases in which a subnet option was actually forwarded upstream (forward unit) or a scoped entry was stored and later probed by another audience (scoped unit)",
     "assumptions": [],
@@ -16,5 +16,13 @@ CHECK = {
         "scoped": {"pkg": "middleware/cache", "run": "TestVerifC19Scoped", "harness": _H, "rewrite": _RW, "stub_tests": ["middleware/cache"],
                    "budget_s": {"quick": 70, "thorough": 700}},
         "forward": {"pkg": "middleware/cache", "run": "TestVerifC19Forward", "harness": _H, "rewrite": _RW, "stub_tests": ["middleware/cache"]},
+        # the real chain edns -> cache -> resolver against a tailoring authority: every order of client arrivals /
+        # wire events / released replies for pairs and triples of audiences, then cache-served re-asks
+        "shared": {"pkg": "internal/verifshim/h_c19sf", "run": "TestVerifC19Shared",
+                   "harness": {"middleware": ["zz_verif_export.go"],
+                               "middleware/resolver": ["zz_verif_export_authsim.go", "zz_verif_export_c12topo.go"],
+                               "middleware/cache": ["zz_verif_export_authsim.go"],
+                               "internal/authority": ["zz_verif_export_authsim.go"]},
+                   "shards": 16, "gomaxprocs": 2, "budget_s": {"quick": 40, "thorough": 400}},
     },
 }
